@@ -59,6 +59,8 @@ def finalize(session, prop, tier, seed, expected, replayers, kf_classes,
     kf_matched = []
     for name, r in sorted(results.items()):
         solver_s += r.solver_s
+        if r.kind == 'aux':
+            continue
         if r.kind == 'cover':
             covers += r.discharged
             if r.failed:
@@ -148,7 +150,7 @@ def finalize(session, prop, tier, seed, expected, replayers, kf_classes,
         list(extra_assumptions or [])
     samples = []
     for name, r in sorted(results.items()):
-        if r.kind in ('cover', 'canary'):
+        if r.kind in ('cover', 'canary', 'aux'):
             continue
         samples.append({'obligation': name, 'kind': r.kind,
                         'instances': r.instances, 'status': r.status,
